@@ -434,7 +434,10 @@ func (c *Ctx) havocAll(s *State) {
 	for _, n := range names {
 		c.havocHeapNamed(s, n, c.heapSorts[n])
 	}
-	c.undecide("call with unspecified frame: all heaps havocked (" + c.lastCallee + ")")
+	s.havocAllSeen = true
+	if !c.havocAllDeclared {
+		c.undecide("call with unspecified frame: all heaps havocked (" + c.lastCallee + ")")
+	}
 }
 
 // checkFrame emits one obligation per heap array that changed relative to snap.
@@ -815,7 +818,9 @@ func (c *Ctx) applyContractAt(s *State, fr *Frame, site string, pos token.Pos, f
 	s.allocCnt = 0
 	if fc.ModGiven {
 		mods := mods0
+		c.havocAllDeclared = modsAll(mods)
 		c.havocMods(s, mods, "")
+		c.havocAllDeclared = false
 	} else if fc.Pure {
 		// no effects
 	} else {
